@@ -191,7 +191,8 @@ pub fn run_case(case: &StreamCase) -> CaseReport {
         prev = *c;
     }
     let dump_after = |prefix: &[u8]| -> Vec<u8> {
-        let mut l = L1::new(case.policy(), case.limit);
+        // no eviction policy here: random victims would make the two dumps incomparable
+        let mut l = L1::new(Policy::None, case.limit);
         let _ = run_stream(&mut l, prefix, &[], false);
         l.dump(&frames::KEYS)
     };
@@ -355,6 +356,14 @@ pub fn check(ctx: &mut Ctx) -> i32 {
     let n = ctx.by(12_000, 100_000);
     if let Some(f) = explore(ctx, &acc, "mixed-streams", "stream", &mixed_strategy, n, ctx.workers, run_case) {
         return fail(ctx, &acc, &f.case, &f.fail);
+    }
+    if !ctx.quick() {
+        if let Some(code) = crate::props::fuzzrun::campaign(ctx, &acc, "c10_exec", 400_000, 12) {
+            if code != EXIT_OK {
+                write_evidence(ctx, &acc, RULE, ASSUME, 1);
+                return code;
+            }
+        }
     }
     if let Some(code) = crate::props::l3phases::c10_socket_phase(ctx, &acc) {
         if code != EXIT_OK {
